@@ -19,7 +19,7 @@ RULE = ('capture: every waveform (initial value x subset of a 4-point grid, with
         '0.0, negative and the default; kernel: C03 W1 space, rise/fall counts vs decoded output and comparison with a capacity-64 run whenever no overflow is flagged; simulator: family circuits x '
         'stimuli x delay plans x capacities (incl. overflowing) x capture times (incl. 0.0, -1 and a second capture on the same object) x accumulation-control tables (one accumulator, one per line, shared, weights, -1, both table heights); '
         'distinct_nontrivial = distinct (case, captured tuple / accumulator vector) signatures')
-ASSUMPTIONS = ['capture with sd = 0 (deterministic); sampled capture (sd > 0) is outside the bounded space',
+ASSUMPTIONS = ['capture with sd = 0 (deterministic); with sd > 0 only captures far from every transition (saturated probability, no sampling) are checked for initial/final value, arrival times and overflow flag',
                'value at time T = initial value xor parity of the transitions strictly before T',
                'memory reuse off for decoding; accumulation expected only for lines that are evaluated (all lines unless forks are stripped)']
 
@@ -69,6 +69,16 @@ def cap_case(res, case):
     if got != exp:
         res.violation(key, case, f'capture of waveform init={init} times={times} ovl={ovl} at T={T}: (init, eat, lst, final, acc, val, ovl) = {got} expected {exp}')
     res.sig(('cap', cap, init, tuple(times), ovl, T, got))
+    if T is None or T > 4.5:
+        # capture with timing uncertainty (sd > 0) far away from every transition: the capture probability is saturated, no sampling is
+        # involved, and initial value, earliest arrival, latest stabilisation, final value and overflow flag are what the waveform encodes
+        Tf = np.float32(40.0 if T is None else T + 30.0)
+        r2 = wave_capture_cpu(c, 2, cap, 1, time=Tf, sd=0.25, seed=1)
+        got2 = (int(bool(r2[0])), float(r2[1]), float(r2[2]), int(r2[3]), int(r2[7]))
+        exp2 = (ei, eeat, elst, efin, int(ovl))
+        if got2 != exp2:
+            res.violation(key + '/sd', case, f'capture with sd=0.25 at T={float(Tf)} of waveform init={init} times={times} ovl={ovl}: (init, eat, lst, final, ovl) = {got2} expected {exp2}')
+        res.count('captures_with_sd')
 
 
 def run_cap(res, task):
@@ -267,7 +277,7 @@ def replay(case):
 
 
 def finish(agg, tier):
-    need = ['w1_overflows', 'w2_overflow_flags', 'w2_nonzero_abuf', 'w2_negative_abuf', 'w2_gpu_abuf', 'w2_cases', 'w2_strip_cases']
+    need = ['captures_with_sd', 'w1_overflows', 'w2_overflow_flags', 'w2_nonzero_abuf', 'w2_negative_abuf', 'w2_gpu_abuf', 'w2_cases', 'w2_strip_cases']
     missing = [k for k in need if not agg.counters.get(k)]
     if missing: raise common.HarnessError(f'vacuity guard: {missing} zero')
     return {}
